@@ -17,6 +17,9 @@
 #include <tao/pegtl/contrib/state_control.hpp>
 
 #include <csignal>
+#if defined( VF_WITH_C07 )
+#include "harness/c07.hpp"
+#endif
 #include <map>
 #include <memory>
 #include <tuple>
@@ -58,6 +61,9 @@ namespace vf
       // parse-tree selectors: per selector the mode of every model node (0 unselected, 1 store_content, 2 remove_content, 3 fold_one, 4 discard_empty)
       std::vector< std::vector< int > > sel_modes;
       std::size_t ( *analyze_fn )() = nullptr;  // C11: tao::pegtl::analyze< Top >( -1 )
+#if defined( VF_WITH_C07 )
+      bool ( *c07_fn )( const std::string&, const c07::params&, std::string&, std::string& ) = nullptr;
+#endif
       int maxlen_quick = 5, maxlen_thorough = 7;
       std::vector< std::string > extra;  // explicit additional inputs
       std::vector< cfg_entry > cfgs;
@@ -882,7 +888,7 @@ namespace vf
 
       auto sink_direct = [ & ]( const std::string& sig, const std::string& kase, const std::string& detail ) { R.fail( sig, kase, detail ); };
 
-      if( !A.kase.empty() && prop != "C11" ) {
+      if( !A.kase.empty() && prop != "C11" && prop != "C07" ) {
          const std::string js = read_file( A.kase );
          case_t c;
          c.input = unhex( jget( js, "input_hex" ) );
@@ -999,6 +1005,157 @@ namespace vf
          R.write( A.out );
          return R.failures.empty() ? 0 : 1;
       }
+
+#if defined( VF_WITH_C07 )
+      if( prop == "C07" ) {
+         const std::string scratch = A.get( "scratch", "" );
+         auto c07_case = [ & ]( gram_entry& ge, const std::string& input, const c07::params& P, rc_last* last ) -> bool {
+            std::string sig, detail;
+            const std::uint64_t r0 = c07::cnt().buffer_runs_with_refill_while_buffered, d0 = c07::cnt().discard_runs, f0 = c07::cnt().file_runs;
+            const std::uint64_t runs0 = c07::cnt().runs;
+            const bool ok = ge.c07_fn( input, P, sig, detail );
+            R.eval( c07::cnt().runs - runs0 );
+            if( c07::cnt().buffer_runs_with_refill_while_buffered > r0 || c07::cnt().file_runs > f0 ) {
+               std::uint64_t ph = 0;
+               for( unsigned x : P.pattern ) {
+                  ph = ph * 11 + x;
+               }
+               R.nontrivial( mix( mix( fnv( ge.pretty ), fnv( input ) ), mix( ph, P.maximum ) ) );
+            }
+            (void)d0;
+            if( !ok ) {
+               // input classes of the recorded findings (see known_findings.json): lazy tracking in grammars with rematch / minus;
+               // CR LF under the cr_crlf policy
+               if( sig.rfind( "memory_input<lazy>", 0 ) == 0 ) {
+                  if( ge.pretty.find( "rematch<" ) != std::string::npos || ge.pretty.find( "minus<" ) != std::string::npos ) {
+                     sig += ":grammar-with-rematch";
+                  }
+                  else if( sig.find( "cr_crlf" ) != std::string::npos && input.find( "\r\n" ) != std::string::npos ) {
+                     sig += ":crlf-under-cr_crlf";
+                  }
+               }
+               std::string pat;
+               for( unsigned x : P.pattern ) {
+                  pat += std::to_string( x ) + " ";
+               }
+               const std::string kase = jobj().str( "kind", "corpus" ).raw( "grammar", ge.json ).str( "input_hex", hexs( input ) ).str( "input", show( input ) ).str( "pattern", pat ).num( "maximum", (long long)P.maximum ).num( "files", P.files ? 1 : 0 ).done();
+               const std::string d = "[" + ge.name + " input '" + show( input ) + "' read sizes { " + pat + "} buffer maximum " + std::to_string( P.maximum ) + "] " + detail + "\n grammar: " + ge.pretty;
+               if( is_known( sig ) ) {
+                  ++R.excluded_known;
+                  R.fail( sig, kase, d );
+                  return true;
+               }
+               if( last ) {
+                  last->set( sig, kase, d );
+               }
+               else {
+                  R.fail( sig, kase, d );
+               }
+               return false;
+            }
+            return true;
+         };
+         if( !A.kase.empty() ) {
+            const std::string js = read_file( A.kase );
+            c07::params P;
+            std::istringstream ps( jget( js, "pattern" ) );
+            unsigned x;
+            while( ps >> x ) {
+               P.pattern.push_back( x );
+            }
+            P.maximum = std::size_t( jgeti( js, "maximum", 64 ) );
+            P.files = jgeti( js, "files" ) != 0;
+            P.scratch = scratch;
+            c07_case( gs[ 0 ], unhex( jget( js, "input_hex" ) ), P, nullptr );
+            R.write( A.out );
+            return R.failures.empty() ? 0 : 1;
+         }
+         rc_configure( A.seed * 7919ULL + A.shard + 1, A.geti( "rc", A.thorough() ? 1500 : 120 ), 100 );
+         bool first = true;
+         for( gram_entry& ge : gs ) {
+            if( !ge.c07_fn ) {
+               continue;
+            }
+            const std::size_t fails_before = R.failures_total - R.excluded_known;
+            // all short inputs with a fixed adversarial read pattern and two buffer sizes
+            const int maxlen = int( A.geti( "maxlen", A.thorough() ? 5 : 4 ) );
+            const std::string& al = ge.alphabet;
+            std::vector< int > idx;
+            bool stop = false;
+            for( int len = 0; len <= maxlen && !stop; ++len ) {
+               idx.assign( std::size_t( len ), 0 );
+               for( ;; ) {
+                  std::string in( std::size_t( len ), ' ' );
+                  for( int i = 0; i < len; ++i ) {
+                     in[ std::size_t( i ) ] = al[ std::size_t( idx[ std::size_t( i ) ] ) ];
+                  }
+                  c07::params P;
+                  P.pattern = { 1, 2, 1, 3 };
+                  P.maximum = ( fnv( in ) & 1 ) ? 64 : 3;
+                  if( !c07_case( ge, in, P, nullptr ) ) {
+                     stop = true;
+                     break;
+                  }
+                  int k = len - 1;
+                  while( k >= 0 && ++idx[ std::size_t( k ) ] == int( al.size() ) ) {
+                     idx[ std::size_t( k ) ] = 0;
+                     --k;
+                  }
+                  if( k < 0 ) {
+                     break;
+                  }
+               }
+            }
+            if( stop ) {
+               continue;
+            }
+            // files incl. the empty file and page-size boundaries (first grammar of the TU only: the sizes matter, not the grammar)
+            if( first && !scratch.empty() ) {
+               first = false;
+               for( std::size_t size : { std::size_t( 0 ), std::size_t( 1 ), std::size_t( 4095 ), std::size_t( 4096 ), std::size_t( 4097 ), std::size_t( 8192 ) } ) {
+                  std::string in;
+                  while( in.size() < size ) {
+                     in += al[ ( in.size() * 7 + in.size() / 5 ) % al.size() ];
+                  }
+                  c07::params P;
+                  P.pattern = { 4096, 1, 4095 };
+                  P.maximum = 16384;
+                  P.files = true;
+                  P.scratch = scratch;
+                  c07_case( ge, in, P, nullptr );
+                  R.cls( "file-size-class:" + std::to_string( size ) );
+               }
+            }
+            // rapidcheck: longer inputs, read-size patterns (histories), buffer maxima, file based inputs
+            rc_last last;
+            rc_run( ge.name.c_str(), R, last, [ & ]() {
+               const std::string in = *rc::gen::resize( 40, rc::gen::container< std::string >( rc::gen::elementOf( al ) ) );
+               c07::params P;
+               P.pattern = *rc::gen::resize( 6, rc::gen::container< std::vector< unsigned > >( rc::gen::resize( 100, rc::gen::inRange< unsigned >( 1, 10 ) ) ) );
+               P.maximum = *rc::gen::elementOf( std::vector< std::size_t >{ 1, 2, 3, 5, 8, 16, 64, 4096 } );
+               P.files = !scratch.empty() && *rc::gen::inRange( 0, 6 ) == 0;
+               P.scratch = scratch;
+               RC_ASSERT( c07_case( ge, in, P, &last ) );
+               if( R.want_sample() && in.size() > 12 ) {
+                  std::string pat;
+                  for( unsigned x : P.pattern ) {
+                     pat += std::to_string( x ) + " ";
+                  }
+                  R.sample( jobj().str( "grammar", ge.pretty ).str( "input", show( in ) ).str( "read_sizes", pat ).num( "buffer_maximum", (long long)P.maximum ).str( "classes", "memory eager/lazy, string, argv, buffer<1,2,7,64>, istream<1,2,7,64>" + std::string( P.files ? ", read, mmap, cstream" : "" ) ).done() );
+               }
+            } );
+            (void)fails_before;
+         }
+         R.cls( "grammars", gs.size() );
+         R.cls( "input-class-runs", c07::cnt().runs );
+         R.cls( "buffer-runs-with-a-refill-after-parsing-started", c07::cnt().buffer_runs_with_refill_while_buffered );
+         R.cls( "runs-with-discard", c07::cnt().discard_runs );
+         R.cls( "runs-ending-in-overflow_error", c07::cnt().overflow_runs );
+         R.cls( "file-based-runs", c07::cnt().file_runs );
+         R.write( A.out );
+         return R.failures.empty() ? 0 : 1;
+      }
+#endif
 
       const long rc_cases = A.geti( "rc", A.thorough() ? 3000 : 300 );
       const long maxlen_override = A.geti( "maxlen", -1 );
